@@ -548,29 +548,6 @@ class EventBus:
         assert event.event_type and event.event_type.isidentifier(), 'Missing event.event_type: str'
         assert event.event_schema and '@' in event.event_schema, 'Missing event.event_schema: str (with @version)'
 
-        # Automatically set event_parent_id from context if not already set
-        if event.event_parent_id is None:
-            current_event: 'BaseEvent[Any] | None' = _current_event_context.get()
-            # an event being forwarded / re-dispatched from one of its own handlers is not its own parent
-            if current_event is not None and current_event.event_id != event.event_id:
-                event.event_parent_id = current_event.event_id
-                event._event_parent = current_event  # pyright: ignore[reportPrivateUsage]
-
-        # Add this EventBus to the event_path if not already there
-        if self.name not in event.event_path:
-            # preserve identity of the original object instead of creating a new one, so that the original object remains awaitable to get the result
-            # NOT: event = event.model_copy(update={'event_path': event.event_path + [self.name]})
-            event.event_path.append(self.name)
-        else:
-            logger.debug(
-                f'⚠️ {self}.dispatch({event.event_type}) - Bus already in path, not adding again. Path: {event.event_path}'
-            )
-
-        assert event.event_path, 'Missing event.event_path: list[str] (with at least the origin function name recorded in it)'
-        assert all(entry.isidentifier() for entry in event.event_path), (
-            f'Event.event_path must be a list of valid EventBus names, got: {event.event_path}'
-        )
-
         # Check hard limit on total pending events (queue + in-progress)
         # Only enforce if we have memory limits set
         if self.max_history_size is not None:
@@ -592,6 +569,34 @@ class EventBus:
         if self.event_queue:
             try:
                 self.event_queue.put_nowait(event)
+
+                # The event is accepted. Everything below records that on the event itself; none of it may happen for a
+                # dispatch that is rejected (a rejected event that kept this bus in its event_path would later be skipped
+                # as a "forwarding loop" when it reaches this bus again through another bus)
+
+                # Automatically set event_parent_id from context if not already set
+                if event.event_parent_id is None:
+                    current_event: 'BaseEvent[Any] | None' = _current_event_context.get()
+                    # an event being forwarded / re-dispatched from one of its own handlers is not its own parent
+                    if current_event is not None and current_event.event_id != event.event_id:
+                        event.event_parent_id = current_event.event_id
+                        event._event_parent = current_event  # pyright: ignore[reportPrivateUsage]
+
+                # Add this EventBus to the event_path if not already there
+                if self.name not in event.event_path:
+                    # preserve identity of the original object instead of creating a new one, so that the original object remains awaitable to get the result
+                    # NOT: event = event.model_copy(update={'event_path': event.event_path + [self.name]})
+                    event.event_path.append(self.name)
+                else:
+                    logger.debug(
+                        f'⚠️ {self}.dispatch({event.event_type}) - Bus already in path, not adding again. Path: {event.event_path}'
+                    )
+
+                assert event.event_path, 'Missing event.event_path: list[str] (with at least the origin function name recorded in it)'
+                assert all(entry.isidentifier() for entry in event.event_path), (
+                    f'Event.event_path must be a list of valid EventBus names, got: {event.event_path}'
+                )
+
                 # Only add to history after successfully queuing
                 self.event_history[event.event_id] = event
                 # The event is not complete before this bus has processed it too
